@@ -410,4 +410,227 @@ theorem transposeFw_plan {x ys : Shape} {m : Moves} (hx : WF x) (h : transposeFw
       · rw [hx.size_eq, matrix_volume hx hm']
       · rw [hy.size_eq, matrix_volume hy hym, g0, g1, hb]; ring
 
+/-! ### batch_concat -/
+
+/-- number of samples of the operands before the `p`-th -/
+def batchesBefore (xs : List Shape) (p : Nat) : Nat := ((xs.take p).map (·.batch)).sum
+
+theorem batchConcatLoop_ok {s0 : Shape} {l : List Shape} {sum r : Nat} (h : ShapeOps.batchConcatLoop s0 l sum = .ok r) :
+    r = sum + (l.map (·.batch)).sum ∧ ∀ s ∈ l, ∀ i, s0.get i = s.get i := by
+  induction l generalizing sum with
+  | nil =>
+    simp only [ShapeOps.batchConcatLoop, pure, Except.pure, Except.ok.injEq] at h
+    exact ⟨by simp [h], fun s hs => by cases hs⟩
+  | cons s rest ih =>
+    simp only [ShapeOps.batchConcatLoop] at h
+    split at h
+    · cases h
+    · rename_i hc
+      have hc' := not_not_eq hc
+      obtain ⟨e, hall⟩ := ih h
+      refine ⟨by rw [e]; simp; omega, ?_⟩
+      intro s' hs'
+      rcases List.mem_cons.mp hs' with rfl | h'
+      · exact hasSameDims_get hc'
+      · exact hall s' h'
+
+theorem batchConcatPlan_length (xs : List Shape) (off : Nat) : (batchConcatPlan xs off).length = xs.length := by
+  induction xs generalizing off with
+  | nil => rfl
+  | cons x rest ih => simp [batchConcatPlan, ih]
+
+theorem batchConcatPlan_get (xs : List Shape) (off p : Nat) (hp : p < xs.length) :
+    (batchConcatPlan xs off)[p]'(by rw [batchConcatPlan_length]; exact hp) =
+      batchConcatMoves (off + ((xs.take p).map (·.size)).sum) xs[p].size := by
+  induction xs generalizing off p with
+  | nil => simp at hp
+  | cons x rest ih =>
+    cases p with
+    | zero => simp [batchConcatPlan]
+    | succ p =>
+      have hp2 : p < rest.length := by simpa using hp
+      simp only [batchConcatPlan, List.getElem_cons_succ, List.take_succ_cons, List.map_cons, List.sum_cons]
+      rw [ih (off + x.size) p hp2]; congr 1; omega
+
+theorem batchConcatFw_plan {xs : List Shape} {ys : Shape} {ms : List Moves} (hxs : ∀ s ∈ xs, WF s)
+    (h : batchConcatFw xs = .ok (ys, ms)) :
+    ∃ x0 rest, xs = x0 :: rest ∧ WF ys ∧ ys.dims = x0.dims ∧ ys.volume = x0.volume ∧
+      ys.batch = (xs.map (·.batch)).sum ∧ ys.size = x0.volume * (xs.map (·.batch)).sum ∧
+      ms = batchConcatPlan xs 0 ∧ ∀ s ∈ xs, s.volume = x0.volume ∧ s.size = x0.volume * s.batch := by
+  unfold batchConcatFw at h
+  split at h
+  · cases h
+  · cases hB : ShapeOps.batchConcat xs with
+    | error e => simp [hB, bind, Except.bind] at h
+    | ok y =>
+      simp only [hB, bind, Except.bind, pure, Except.pure, Except.ok.injEq, Prod.mk.injEq] at h
+      obtain ⟨rfl, rfl⟩ := h
+      cases xs with
+      | nil => simp [ShapeOps.batchConcat] at hB; cases hB
+      | cons x0 rest =>
+        simp only [ShapeOps.batchConcat] at hB
+        cases hL : ShapeOps.batchConcatLoop x0 rest x0.batch with
+        | error e => simp [hL, bind, Except.bind] at hB
+        | ok sum =>
+          simp only [hL, bind, Except.bind] at hB
+          split at hB
+          · cases hB
+          · have hx0 := hxs x0 List.mem_cons_self
+            obtain ⟨hy, hb, hd, hv⟩ := updateBatch_ok hx0 hB
+            obtain ⟨hsum, hall⟩ := batchConcatLoop_ok hL
+            have hbs : y.batch = ((x0 :: rest).map (·.batch)).sum := by rw [hb, hsum]; simp
+            refine ⟨x0, rest, rfl, hy, hd, hv, hbs, by rw [hy.size_eq, hv, hbs], rfl, ?_⟩
+            intro s hs
+            have hsw := hxs s hs
+            have hvol : s.volume = x0.volume := by
+              rcases List.mem_cons.mp hs with rfl | h'
+              · rfl
+              · exact (volume_eq_of_get hx0 hsw (hall s h')).symm
+            exact ⟨hvol, by rw [hsw.size_eq, hvol]⟩
+
+/-! ### concat -/
+
+theorem compat_of {a b : Shape} (h : ¬ (!a.hasCompatibleBatch b) = true) :
+    a.batch = b.batch ∨ a.batch = 1 ∨ b.batch = 1 := by
+  have h' := not_not_eq h
+  unfold Shape.hasCompatibleBatch at h'
+  simp only [Bool.or_eq_true, beq_iff_eq] at h'
+  rcases h' with (a | a) | a <;> simp [a]
+
+theorem concatLoop_ok {dim : Nat} {l : List Shape} {s0 sf : Shape} {sum sumf : Nat} (hs0 : WF s0)
+    (h : ShapeOps.concatLoop dim l (s0, sum) = .ok (sf, sumf)) :
+    WF sf ∧ sf.dims = s0.dims ∧ sf.volume = s0.volume ∧ sumf = sum + (l.map (·.get dim)).sum ∧
+    (∀ s ∈ l, (∀ i, i ≠ dim → s0.get i = s.get i) ∧ (s.batch = 1 ∨ s.batch = sf.batch)) ∧
+    (s0.batch = 1 ∨ s0.batch = sf.batch) := by
+  induction l generalizing s0 sum with
+  | nil =>
+    simp only [ShapeOps.concatLoop, pure, Except.pure, Except.ok.injEq, Prod.mk.injEq] at h
+    obtain ⟨rfl, rfl⟩ := h
+    exact ⟨hs0, rfl, rfl, (by simp), (fun s hs => by cases hs), Or.inr rfl⟩
+  | cons s rest ih =>
+    simp only [ShapeOps.concatLoop] at h
+    cases hl : s0.hasSameLooDims s dim with
+    | error e => simp [hl, bind, Except.bind] at h
+    | ok loo =>
+      simp only [hl, bind, Except.bind] at h
+      split at h
+      · cases h
+      · rename_i hc
+        simp only [Bool.or_eq_true, not_or] at hc
+        obtain ⟨c1, c2⟩ := hc
+        have c1' : loo = true := not_not_eq c1
+        subst c1'
+        have hget := hasSameLooDims_get hl
+        have hcomp := compat_of c2
+        by_cases hb : s0.hasBatch = true
+        · -- s0 keeps its batch
+          simp only [hb, Bool.not_true, Bool.false_eq_true, if_false, pure, Except.pure] at h
+          obtain ⟨w, d, v, e, hall, hbb⟩ := ih hs0 h
+          have hb1 : 1 < s0.batch := (hasBatch_iff s0).mp hb
+          have hsf : s0.batch = sf.batch := by omega
+          refine ⟨w, d, v, (by rw [e]; simp; omega), ?_, hbb⟩
+          intro s' hs'
+          rcases List.mem_cons.mp hs' with rfl | h'
+          · exact ⟨hget, by omega⟩
+          · exact hall s' h'
+        · -- s0 takes the batch of s
+          have hb0 : s0.batch = 1 := by
+            have := hs0.bpos
+            have : ¬ 1 < s0.batch := fun hh => hb ((hasBatch_iff s0).mpr hh)
+            omega
+          simp only [hb, Bool.not_false, if_true] at h
+          cases hu : s0.updateBatch s.batch with
+          | error e => simp [hu] at h
+          | ok s0' =>
+            simp only [hu] at h
+            obtain ⟨w0, b0, d0, v0⟩ := updateBatch_ok hs0 hu
+            obtain ⟨w, d, v, e, hall, hbb⟩ := ih w0 h
+            refine ⟨w, (by rw [d, d0]), (by rw [v, v0]), (by rw [e]; simp; omega), ?_, Or.inl hb0⟩
+            intro s' hs'
+            rcases List.mem_cons.mp hs' with rfl | h'
+            · exact ⟨hget, by rw [b0] at hbb; exact hbb⟩
+            · have := hall s' h'
+              exact ⟨fun i hi => by rw [← this.1 i hi, get_eq_of_dims d0], this.2⟩
+
+theorem concatPlan_length (y : Shape) (dim : Nat) (xs : List Shape) (off : Nat) :
+    (concatPlan y dim xs off).length = xs.length := by
+  induction xs generalizing off with
+  | nil => rfl
+  | cons x rest ih => simp [concatPlan, ih]
+
+theorem concatPlan_get (y : Shape) (dim : Nat) (xs : List Shape) (off p : Nat) (hp : p < xs.length) :
+    (concatPlan y dim xs off)[p]'(by rw [concatPlan_length]; exact hp) =
+      concatMoves y.batch (y.lowerVolume dim) (y.lowerVolume dim * y.get dim)
+        (y.volume / (y.lowerVolume dim * y.get dim))
+        (off + y.lowerVolume dim * ((xs.take p).map (·.get dim)).sum) (xs[p].get dim) (b2n xs[p].hasBatch) := by
+  induction xs generalizing off p with
+  | nil => simp at hp
+  | cons x rest ih =>
+    cases p with
+    | zero => simp [concatPlan]
+    | succ p =>
+      have hp2 : p < rest.length := by simpa using hp
+      simp only [concatPlan, List.getElem_cons_succ, List.take_succ_cons, List.map_cons, List.sum_cons]
+      rw [ih (off + y.lowerVolume dim * x.get dim) p hp2]; congr 1; ring
+
+theorem concatFw_plan {xs : List Shape} {ys : Shape} {ms : List Moves} {dim : Nat} (hxs : ∀ s ∈ xs, WF s)
+    (h : concatFw xs dim = .ok (ys, ms)) :
+    ∃ x0 rest, xs = x0 :: rest ∧ dim < 8 ∧ WF ys ∧
+      (∀ i, ys.get i = if i = dim then (xs.map (·.get dim)).sum else x0.get i) ∧
+      (∀ s ∈ xs, (∀ i, i ≠ dim → s.get i = x0.get i) ∧ (s.batch = 1 ∨ s.batch = ys.batch)) ∧
+      ms = concatPlan ys dim xs 0 := by
+  unfold concatFw at h
+  split at h
+  · cases h
+  · cases hB : ShapeOps.concat xs dim with
+    | error e => simp [hB, bind, Except.bind] at h
+    | ok y =>
+      simp only [hB, bind, Except.bind, pure, Except.pure, Except.ok.injEq, Prod.mk.injEq] at h
+      obtain ⟨rfl, rfl⟩ := h
+      cases xs with
+      | nil => simp [ShapeOps.concat] at hB; cases hB
+      | cons x0 rest =>
+        simp only [ShapeOps.concat] at hB
+        cases hL : ShapeOps.concatLoop dim rest (x0, x0.get dim) with
+        | error e => simp [hL, bind, Except.bind] at hB
+        | ok st =>
+          obtain ⟨sf, sumf⟩ := st
+          simp only [hL, bind, Except.bind] at hB
+          split at hB
+          · cases hB
+          · have hx0 := hxs x0 List.mem_cons_self
+            obtain ⟨wf, hd, _, hsum, hall, hb0⟩ := concatLoop_ok hx0 hL
+            obtain ⟨h8, _, hy, hyb, hyg, _⟩ := updateDim_ok wf hB
+            refine ⟨x0, rest, rfl, h8, hy, ?_, ?_, rfl⟩
+            · intro i; rw [hyg i]
+              split
+              · rw [hsum]; simp
+              · exact get_eq_of_dims hd i
+            · intro s hs
+              rcases List.mem_cons.mp hs with rfl | h'
+              · exact ⟨fun _ _ => rfl, by rw [hyb]; exact hb0⟩
+              · have := hall s h'
+                exact ⟨fun i hi => (this.1 i hi).symm, by rw [hyb]; exact this.2⟩
+
+/-- the loop nest of the `p`-th operand of concat, as numbers -/
+theorem concatFw_entry {xs : List Shape} {ys : Shape} {ms : List Moves} {dim : Nat} (hxs : ∀ s ∈ xs, WF s)
+    (h : concatFw xs dim = .ok (ys, ms)) (p : Nat) (hp : p < xs.length) :
+    ∃ hp' : p < ms.length,
+      ms[p] = concatMoves ys.batch (lo ys dim) (lo ys dim * ys.get dim) (up ys dim)
+        (lo ys dim * ((xs.take p).map (·.get dim)).sum) (xs[p].get dim) (if xs[p].batch = 1 then 0 else 1) ∧
+      xs[p].size = lo ys dim * xs[p].get dim * up ys dim * xs[p].batch ∧
+      ys.size = lo ys dim * ys.get dim * up ys dim * ys.batch ∧
+      ys.get dim = (xs.map (·.get dim)).sum ∧ (xs[p].batch = 1 ∨ xs[p].batch = ys.batch) := by
+  obtain ⟨x0, rest, hcons, h8, hy, hyg, hall, rfl⟩ := concatFw_plan hxs h
+  have hxp := hxs _ (List.getElem_mem hp)
+  have ⟨hgp, hbp⟩ := hall _ (List.getElem_mem hp)
+  have vy := hy.toView dim
+  have vp := hxp.toView dim
+  have e1 : lo xs[p] dim = lo ys dim := lo_eq_of_get (fun i hi => by rw [hgp i (by omega), hyg i, if_neg (by omega)])
+  have e2 : up xs[p] dim = up ys dim := up_eq_of_get (fun i hi => by rw [hgp i (by omega), hyg i, if_neg (by omega)])
+  refine ⟨by rw [concatPlan_length]; exact hp, ?_, by rw [vp.size, e1, e2], vy.size, by rw [hyg dim, if_pos rfl], hbp⟩
+  rw [concatPlan_get _ _ _ _ _ hp, vy.lower, vy.volume, b2n_hasBatch _ hxp, Nat.zero_add]
+  congr 1
+  rw [Nat.mul_comm, Nat.mul_div_cancel _ (Nat.mul_pos vy.hL vy.hn)]
+
 end Primitiv.Move.Front
